@@ -67,4 +67,35 @@ def run(chk, P, units=None, rule="R-CAPFIELD"):
                     same = asig == csig or asig == (cf,)        # allocated from the capacity field itself
                     chk.inst(rule, f, "%s->%s/%s" % (owner, af, cf), same,
                              "%s->%s is allocated for %s elements (%s) and %s->%s records %s%s" % (owner, af, "*".join(asig) or "1", aloc, owner, cf, ctxt, "" if same else ": the recorded capacity is not the allocated one"), loc=cloc)
+                    # second clause, by evaluation: no successful exit leaves the array known NULL while a capacity that is not the
+                    # constant 0 was recorded (an allocation skipped on one path, the capacity copied on all)
+                    import peval
+                    akey, ckey = "%s->%s" % (owner, af), "%s->%s" % (owner, cf)
+                    bad = []
+                    def obs(nd, env, ckey=ckey):
+                        a9 = assigned(nd)
+                        if a9 and lv(a9[0]) == ckey:
+                            if a9[1] == "=" and a9[2] is not None and cval(a9[2]) == 0:
+                                env.pop("#cap", None)
+                            else:
+                                env["#cap"] = 1
+                    def obx(kind, nd, env, akey=akey, bad=bad):
+                        v = None
+                        if kind == "return" and nd.get("c") and nd["c"][0] is not None:
+                            v = peval.Evaluator(f, env).ev(nd["c"][0])
+                        failed = v is not None and (v == 0 if f.unit.types[f.d["ret"]].get("ptr") else v < 0)
+                        if not failed and env.get("#cap") and env.get(akey) == 0 and not bad:
+                            bad.append(f.loc(nd) if nd is not None else f.name + ":end")
+                    locals_ = set(k9 for k9 in localalloc) | set(v9["n"] for v9 in f.walk() if v9["k"] == "Var" and f.unit.types[v9["t"]].get("ptr"))
+                    try:
+                        # allocations are taken to succeed here: what is judged is an allocation SKIPPED on a path, not one that failed
+                        ALLOC = {k9: 1 for k9 in ("malloc", "calloc", "realloc", "hwloc_tma_malloc", "hwloc_tma_calloc", "strdup")}
+                        peval.PathEval(P, f, {}, is_effect=lambda *z: False, through_effects=True, observe=obs, observe_exit=obx, track={akey} | locals_, maxstates=60000,
+                                       call_values=ALLOC).run()
+                        n += 1
+                        chk.inst(rule, f, "%s->%s/%s:allocated-when-recorded" % (owner, af, cf), not bad,
+                                 "no successful exit leaves %s NULL while a capacity other than the constant 0 was recorded in %s%s"
+                                 % (akey, ckey, "" if not bad else " -- but the exit at %s does: the next append trusts the capacity and writes through NULL" % bad[0]), loc=cloc)
+                    except AnalysisBroken:
+                        pass
     return n
